@@ -108,6 +108,9 @@ inline void death_and_stdout(const RunResult &r, const std::string &ctx, std::ve
 		if (!o.out.empty())
 			v.push_back({"stdout:" + o.op + (ctx.empty() ? "" : ":" + ctx),
 				     "library wrote to stdout during '" + o.op + "' (#" + std::to_string(o.index) + "): \"" + esc(o.out) + "\"", nullptr});
+		if (o.stdin_read)
+			v.push_back({"stdin:" + o.op + (ctx.empty() ? "" : ":" + ctx),
+				     "library read from the process's standard input during '" + o.op + "' (#" + std::to_string(o.index) + "): a real process blocks there (the scanner lost its input and fell back to stdin)", nullptr});
 	}
 }
 
